@@ -160,6 +160,7 @@ pub fn scenarios(prop: &str, thorough: bool) -> Vec<Scenario> {
         "C06" | "C19" => {
             v.extend(held_family(thorough));
             v.extend(scenarios("C07", thorough).into_iter().filter(|s| s.name.starts_with("Big/") || s.name.starts_with("MC/")));
+            v.extend(scenarios("C12", thorough).into_iter().filter(|s| s.name.starts_with("RE/")));
             // small scripts, explored with a higher preemption bound
             for pool in [1usize, 2] {
                 for (xi, x) in [None, Some(UOp::Reparse(0, "ab")), Some(UOp::Reparse(0, "b")), Some(UOp::Restart(false))].iter().enumerate() {
@@ -369,6 +370,7 @@ pub fn scenarios(prop: &str, thorough: bool) -> Vec<Scenario> {
                     }
                 }
             }
+            v.extend(scenarios("C12", thorough).into_iter().filter(|s| s.name.starts_with("RE/")));
             // (MC) two columns: every pair of column texts, then one more edit in either column
             // (an append or not), with a tick in between; items whose columns differ
             {
